@@ -134,6 +134,9 @@ def main() -> int:
             if rr.get("_error") or "tree" not in rr:
                 continue
             ev.count("hashseed_pairs")
+            if rr.get("exc") or not rr.get("accepted"):
+                vd.violation("hashseed:outcome_differs", f"{cases[ci][0]}: generated under PYTHONHASHSEED=0 but under {hs}: {rr.get('exc') or [x['header'] for x in rr.get('diags') or []][:2]}", {"doc": cases[ci][1], "cfg": cases[ci][3], "hashseed": hs, "hooks": ci % 5 == 0, "exc": rr.get("exc")})
+                continue
             for dk, rel in tree_diff(base_tree[ci], rr["tree"])[:3]:
                 vd.violation(f"hashseed:{artefact_kind(rel)}:{dk}", f"{cases[ci][0]}: {rel} differs between PYTHONHASHSEED=0 and {hs}: {first_text_diff(base_tree[ci].get(rel), rr['tree'].get(rel))}", {"doc": cases[ci][1], "cfg": cases[ci][3], "file": rel, "hashseed": hs, "hooks": ci % 5 == 0})
             ev.seen(("hashseed", tuple(sorted(cases[ci][2]))[:12], ci % 5 == 0))
